@@ -324,8 +324,8 @@ namespace mfuse
             maxobjects = numobjects;
             if (!objlist)
             {
-                objlist = Object_allocator.Alloc(sizeof(Type) * maxobjects);
-                for (size_t i = 0; i < arrayIndex; ++i) {
+                objlist = (Type*)Object_allocator.Alloc(sizeof(Type) * maxobjects);
+                for (intptr_t i = 0; i < arrayIndex; ++i) {
                     new(objlist + i) Type();
                 }
 
@@ -338,23 +338,34 @@ namespace mfuse
                     maxobjects = numobjects;
                 }
 
-                objlist = Object_allocator.Alloc(sizeof(Type) * maxobjects);
+                objlist = (Type*)Object_allocator.Alloc(sizeof(Type) * maxobjects);
 
                 for (intptr_t i = 0; i < arrayIndex; ++i) {
                     new(objlist + i) Type(std::move_if_noexcept(temp[i]));
+                    // destruct the older type
+                    temp[i].~Type();
                 }
 
                 new(objlist + arrayIndex) Type(obj);
-                for (intptr_t i = arrayIndex; i < numobjects - 1; ++i) {
+                for (intptr_t i = arrayIndex; i < (intptr_t)numobjects - 1; ++i) {
                     new(objlist + i + 1) Type(std::move_if_noexcept(temp[i]));
+                    // destruct the older type
+                    temp[i].~Type();
                 }
 
                 Object_allocator.Free(temp);
             }
         }
+        else if (arrayIndex == (intptr_t)numobjects - 1)
+        {
+            // appending: the slot is raw storage
+            new(objlist + arrayIndex) Type(obj);
+        }
         else
         {
-            for (intptr_t i = numobjects - 1; i > arrayIndex; i--) {
+            // the last slot is raw storage: construct it, assign the rest
+            new(objlist + numobjects - 1) Type(std::move_if_noexcept(objlist[numobjects - 2]));
+            for (intptr_t i = numobjects - 2; i > arrayIndex; i--) {
                 objlist[i] = std::move_if_noexcept(objlist[i - 1]);
             }
             objlist[arrayIndex] = obj;
